@@ -49,6 +49,8 @@ var scalars = []string{"string", "int32", "bool", "bytes", "uint64", "double"}
 var commentPool = []string{"Describes the thing.", "See the design document for details.", "TODO(owner): refine.", "Second sentence here.", "x"}
 var pkgPool = []string{"acme.foo.v1", "acme.bar.v1beta1", "zoo.v2", "acme.baz_qux.v1alpha2", "x1.y.v1p1beta1", "pkg.v1test", "acme.w2.v3"}
 var filePool = []string{"types", "service", "more_types", "api2", "a_1", "common", "x"}
+var mapKeyPool = []string{"string", "int32", "int64", "bool", "uint32"}
+var groupPool = []string{"Result", "Item", "FooGrp", "Entry2", "HTTPInfo", "G", "SubPart"}
 var optValuePool = [7][]string{{"Acme.Foo"}, {"example.com/gen/foo;foov1", "foo"}, {"true", "false"}, {"com.acme.foo"}, {`Acme\\Foo`}, {"Acme::Foo"}, {"ACME"}}
 
 type avail struct {
@@ -67,6 +69,8 @@ type gen struct {
 	extNum   int
 	depIdx   int
 	maxDepth int
+	// extendable[fi]: nested names of the proto2 messages of file fi that declare an extension range
+	extendable map[int][]string
 }
 
 func (g *gen) uniq(scope, base string, alt func(n int) string) string {
@@ -106,6 +110,9 @@ func (g *gen) comment() []string {
 	}
 	if g.r.Chance(1, 12) {
 		c = append(c, "buf:lint:ignore FIELD_LOWER_SNAKE_CASE") // an excluded line next to a real one
+	}
+	if g.r.Chance(1, 12) {
+		c = append([]string{"buf:lint:ignore COMMENT_FIELD"}, c...) // the excluded line comes first
 	}
 	return c
 }
@@ -190,17 +197,59 @@ func (g *gen) enum(scope string, nestedPrefix string, fi int, proto3 bool) enumT
 	return e
 }
 
+// extension makes one extension field.  Extendees: descriptor option messages (the only ones a
+// proto3 file may extend) and, in proto2 files, messages of the same file with an extension range.
 func (g *gen) extension(fi int, scope string) fieldT {
-	g.ensureImport(fi, -1, "google/protobuf/descriptor.proto")
 	g.extNum++
 	name := hx.Pick(g.r, fieldPool)
 	name = g.uniq(scope, name, func(n int) string { return name + "_opt" + strconv.Itoa(n+1) })
-	f := fieldT{name: name, comment: g.comment(), scalar: hx.Pick(g.r, scalars), number: 50000 + g.extNum, oneof: -1,
-		extendee: hx.Pick(g.r, []string{"google.protobuf.FieldOptions", "google.protobuf.MessageOptions", "google.protobuf.FieldOptions"})}
-	if !(g.w.files[fi].syntax == "proto3") {
-		f.label = "optional"
-	} else if g.r.Chance(1, 4) {
+	f := fieldT{name: name, comment: g.comment(), detached: g.r.Chance(1, 10), scalar: hx.Pick(g.r, scalars), number: 50000 + g.extNum, oneof: -1}
+	proto3 := g.w.files[fi].syntax == "proto3"
+	if own := g.extendable[fi]; !proto3 && len(own) > 0 && g.r.Chance(2, 3) {
+		f.extOwn = hx.Pick(g.r, own)
+	} else {
+		g.ensureImport(fi, -1, "google/protobuf/descriptor.proto")
+		f.extendee = hx.Pick(g.r, []string{"google.protobuf.FieldOptions", "google.protobuf.MessageOptions", "google.protobuf.FieldOptions"})
+	}
+	switch {
+	case !proto3:
+		f.label = hx.Pick(g.r, []string{"optional", "optional", "repeated"})
+	case g.r.Chance(1, 4):
 		f.label = "repeated"
+	case g.r.Chance(1, 4):
+		f.label = "optional" // proto3_optional without a synthetic oneof
+	}
+	return f
+}
+
+// mapField: `map<K, V> name = n;` — the compiler adds the synthetic nested message <Name>Entry.
+func (g *gen) mapField(fi int, inner string, proto3 bool, num int) fieldT {
+	f := fieldT{name: g.fieldName(inner), comment: g.comment(), detached: g.r.Chance(1, 10), number: num, oneof: -1, mapKey: hx.Pick(g.r, mapKeyPool)}
+	g.fieldType(fi, proto3, &f)
+	g.used[inner+"\x00"+mapEntryName(f.name)] = true
+	return f
+}
+
+// groupField (proto2 only): `label group Name = n { … }` — a field `name` (lower-cased) of type
+// group plus the nested message Name, which owns the comment.
+func (g *gen) groupField(fi int, inner string, num int, oneof int) fieldT {
+	base := hx.Pick(g.r, groupPool)
+	name := base
+	for n := 2; g.used[inner+"\x00"+name] || g.used[inner+"\x00"+strings.ToLower(name)]; n++ {
+		name = base + strconv.Itoa(n)
+	}
+	g.used[inner+"\x00"+name] = true
+	g.used[inner+"\x00"+strings.ToLower(name)] = true
+	body := &msgT{name: name, comment: g.comment(), detached: g.r.Chance(1, 8)}
+	bscope := inner + "." + name
+	for i, n := 0, 1+g.r.Intn(2); i < n; i++ {
+		bf := fieldT{name: g.fieldName(bscope), comment: g.comment(), number: i + 1, oneof: -1, label: hx.Pick(g.r, []string{"optional", "repeated"})}
+		g.fieldType(fi, false, &bf)
+		body.fields = append(body.fields, bf)
+	}
+	f := fieldT{name: strings.ToLower(name), number: num, oneof: oneof, group: body}
+	if oneof < 0 {
+		f.label = hx.Pick(g.r, []string{"optional", "optional", "repeated"})
 	}
 	return f
 }
@@ -230,9 +279,23 @@ func (g *gen) message(fi int, scope, nestedPrefix string, depth int, proto3 bool
 			m.msgs = append(m.msgs, g.message(fi, inner, prefix, depth+1, proto3, ""))
 		}
 	}
+	if !proto3 && g.r.Chance(1, 3) {
+		m.extRange = true
+		g.extendable[fi] = append(g.extendable[fi], nestedPrefix+name)
+	}
 	nf := 1 + g.r.Intn(4)
 	num := 1
 	for i := 0; i < nf; i++ {
+		switch {
+		case g.r.Chance(1, 6):
+			m.fields = append(m.fields, g.mapField(fi, inner, proto3, num))
+			num++
+			continue
+		case !proto3 && g.r.Chance(1, 5):
+			m.fields = append(m.fields, g.groupField(fi, inner, num, -1))
+			num++
+			continue
+		}
 		f := fieldT{name: g.fieldName(inner), comment: g.comment(), detached: g.r.Chance(1, 10), number: num, oneof: -1}
 		num++
 		g.fieldType(fi, proto3, &f)
@@ -246,11 +309,20 @@ func (g *gen) message(fi int, scope, nestedPrefix string, depth int, proto3 bool
 		}
 		m.fields = append(m.fields, f)
 	}
-	// a oneof over two fresh consecutive fields
+	// up to two oneofs over fresh consecutive fields (a proto2 oneof may hold a group)
+	no := 0
 	if g.r.Chance(1, 3) {
+		no = 1 + g.r.Intn(3)/2
+	}
+	for k := 0; k < no; k++ {
 		oname := g.uniq(inner, hx.Pick(g.r, []string{"choice", "kind_of", "payload2"}), func(n int) string { return "choice_" + strconv.Itoa(n+2) })
 		m.oneofs = append(m.oneofs, oneofT{name: oname, comment: g.comment()})
-		for k := 0; k < 2; k++ {
+		for j := 0; j < 2; j++ {
+			if !proto3 && j == 1 && g.r.Chance(1, 3) {
+				m.fields = append(m.fields, g.groupField(fi, inner, num, len(m.oneofs)-1))
+				num++
+				continue
+			}
 			f := fieldT{name: g.fieldName(inner), comment: g.comment(), number: num, oneof: len(m.oneofs) - 1}
 			num++
 			g.fieldType(fi, proto3, &f)
@@ -258,13 +330,14 @@ func (g *gen) message(fi int, scope, nestedPrefix string, depth int, proto3 bool
 		}
 		if g.r.Chance(1, 2) {
 			f := fieldT{name: g.fieldName(inner), comment: g.comment(), number: num, oneof: -1, scalar: "string"}
+			num++
 			if !proto3 {
 				f.label = "optional"
 			}
 			m.fields = append(m.fields, f)
 		}
 	}
-	if proto3 && g.r.Chance(1, 5) {
+	if g.r.Chance(1, 4) {
 		n := 1 + g.r.Intn(3)
 		for i := 0; i < n; i++ {
 			m.exts = append(m.exts, g.extension(fi, inner))
@@ -321,14 +394,14 @@ func (g *gen) fileBody(fi int) {
 	for i, n := 0, 1+g.r.Intn(3); i < n; i++ {
 		f.msgs = append(f.msgs, g.message(fi, scope, "", 0, proto3, ""))
 	}
-	if proto3 {
+	if proto3 || g.r.Chance(1, 2) {
 		for i, n := 0, g.r.Intn(3); i < n; i++ {
 			f.svcs = append(f.svcs, g.service(fi, scope))
 		}
-		if g.r.Chance(1, 3) {
-			for i, n := 0, 1+g.r.Intn(3); i < n; i++ {
-				f.exts = append(f.exts, g.extension(fi, scope))
-			}
+	}
+	if g.r.Chance(1, 2) {
+		for i, n := 0, 1+g.r.Intn(3); i < n; i++ {
+			f.exts = append(f.exts, g.extension(fi, scope))
 		}
 	}
 	order := []byte("emsx")
@@ -336,24 +409,100 @@ func (g *gen) fileBody(fi int) {
 	f.order = order
 }
 
-// depFile is import-only and violates as many rules as possible: nothing in it may be reported.
+// depFile is import-only and violates as many rules as possible (every kind of field included:
+// plain, nested, map, group, nested and file-level extension): nothing in it may be reported.
 func depFile() *fileT {
 	return &fileT{path: "Dep/BadFile.proto", pkg: "Dep_pkg", isImport: true, syntax: "proto2", order: []byte("emsx"),
 		opts:  [7]string{"", "dep/other", "", "", "", "", ""},
 		enums: []enumT{{name: "bad_enum", values: []valueT{{name: "one", number: 1}, {name: "zero", number: 0}}}},
-		msgs: []msgT{{name: "bad_message", fields: []fieldT{{name: "BadField", label: "required", scalar: "string", number: 1, oneof: -1}},
+		msgs: []msgT{{name: "bad_message", extRange: true,
+			fields: []fieldT{{name: "BadField", label: "required", scalar: "string", number: 1, oneof: -1},
+				{name: "BadMap", scalar: "string", mapKey: "int32", number: 2, oneof: -1},
+				{name: "bad_group", label: "required", number: 3, oneof: -1,
+					group: &msgT{name: "Bad_group", fields: []fieldT{{name: "InGroup", label: "optional", scalar: "bool", number: 1, oneof: -1}}}}},
+			exts: []fieldT{{name: "NestedBadExt", label: "optional", scalar: "string", number: 1000, oneof: -1, extOwn: "bad_message"}},
 			msgs: []msgT{{name: "inner_bad", fields: []fieldT{{name: "Descriptor", label: "optional", scalar: "string", number: 1, oneof: -1}}}}}},
+		exts: []fieldT{{name: "BadExt", label: "optional", scalar: "string", number: 1001, oneof: -1, extOwn: "bad_message"},
+			{name: "descriptor", label: "repeated", scalar: "int32", number: 1002, oneof: -1, extOwn: "bad_message"}},
+	}
+}
+
+// ensureKinds makes sure that every workspace contains every KIND of element the iteration
+// helpers of the lint rules distinguish, so that every planting operator has a target of every
+// kind in every workspace: a file-level extension (parent message nil), an extension nested in
+// a message, a map field, a second service, and — when the workspace has a proto2 file — a
+// group field and a group inside a oneof.
+func (g *gen) ensureKinds() {
+	nextNum := func(m *msgT) int {
+		n := 0
+		for _, f := range m.fields {
+			n = max(n, f.number)
+		}
+		return n + 1
+	}
+	have := map[string]bool{}
+	proto2File := -1
+	for fi, f := range g.w.files[:g.depIdx] {
+		if f.syntax != "proto3" && proto2File < 0 && len(f.msgs) > 0 {
+			proto2File = fi
+		}
+		if len(f.exts) > 0 {
+			have["file-ext"] = true
+		}
+		f.eachField(func(_ string, fl *fieldT, m *msgT, isExt bool, _ int) {
+			switch {
+			case isExt && m != nil:
+				have["nested-ext"] = true
+			case fl.isMap():
+				have["map"] = true
+			case fl.isGroup() && fl.oneof >= 0:
+				have["group-oneof"] = true
+			case fl.isGroup():
+				have["group"] = true
+			}
+		})
+	}
+	f0 := g.w.files[0]
+	scope0 := "pkg:" + f0.pkg
+	if !have["file-ext"] {
+		f0.exts = append(f0.exts, g.extension(0, scope0), g.extension(0, scope0))
+	}
+	if len(f0.msgs) > 0 {
+		m := &f0.msgs[len(f0.msgs)-1]
+		inner := scope0 + "." + m.name
+		if !have["nested-ext"] {
+			m.exts = append(m.exts, g.extension(0, inner))
+		}
+		if !have["map"] {
+			m.fields = append(m.fields, g.mapField(0, inner, f0.syntax == "proto3", nextNum(m)))
+		}
+	}
+	if proto2File >= 0 {
+		f := g.w.files[proto2File]
+		m := &f.msgs[0]
+		inner := "pkg:" + f.pkg + "." + m.name
+		if !have["group"] {
+			m.fields = append(m.fields, g.groupField(proto2File, inner, nextNum(m), -1))
+		}
+		if !have["group-oneof"] {
+			oname := g.uniq(inner, "grouped", func(n int) string { return "grouped_" + strconv.Itoa(n+2) })
+			m.oneofs = append(m.oneofs, oneofT{name: oname, comment: g.comment()})
+			oi := len(m.oneofs) - 1
+			fl := fieldT{name: g.fieldName(inner), comment: g.comment(), number: nextNum(m), oneof: oi, scalar: "string"}
+			m.fields = append(m.fields, fl)
+			m.fields = append(m.fields, g.groupField(proto2File, inner, nextNum(m), oi))
+		}
 	}
 }
 
 func genWorkspace(r *hx.Rand, o lintOpts) *wsT {
-	g := &gen{r: r, o: o, w: &wsT{}, used: map[string]bool{}, maxDepth: 1 + r.Intn(3)}
+	g := &gen{r: r, o: o, w: &wsT{}, used: map[string]bool{}, maxDepth: 1 + r.Intn(3), extendable: map[int][]string{}}
 	npk := 1 + r.Intn(3)
 	pkgs := append([]string{}, pkgPool...)
 	hx.Shuffle(r, pkgs)
 	pkgs = pkgs[:npk]
 	proto2Slot := -1
-	if r.Chance(1, 2) {
+	if r.Chance(3, 4) {
 		proto2Slot = r.Intn(npk)
 	}
 	for pi, pkg := range pkgs {
@@ -399,5 +548,6 @@ func genWorkspace(r *hx.Rand, o lintOpts) *wsT {
 		m.fields = append(m.fields, fl)
 		g.ensureImport(0, g.depIdx, "")
 	}
+	g.ensureKinds()
 	return g.w
 }
